@@ -507,7 +507,7 @@ func (eng *Engine) loadContractFile(file string) error {
 			cur.Inst[callee] = m
 		case "use_axiom":
 			cur.UseAxioms = append(cur.UseAxioms, strings.Fields(strings.ReplaceAll(rest, ",", " "))...)
-		case "gexp_scalar", "gexp_table", "gexp_loop", "gexp_base":
+		case "gexp_scalar", "gexp_table", "gexp_loop", "gexp_base", "gexp_naf":
 			// exponent contracts for scalar multiplication (gexp.go)
 		case "exp_ops", "exp_in", "exp_out":
 			// exponent-mode contracts (ring.go)
